@@ -12,6 +12,12 @@ def jobs(tier):
     for prog, o1, o2, nm in combos:
         d = {"PROGRAM": '"%s"' % PROGS[prog], "OPTS1": o1, "OPTS2": o2}
         js.append(vp.Job("determinism.%s.%s" % (prog, nm), "determinism.cpp", d, extra_bc=["naken_asm"], max_paths=200000, timeout=1200, min_completed=50, max_steps=40000000))
+    # the image does not depend on the output type nor on the number of empty lines before the program (symbolic)
+    XPROGS = {"msp430": ".msp430\\n.org 0x1000\\nstart:\\n  mov.w #5, r4\\n  add.w r4, r5\\n  .db 1, 2\\n  jmp start\\n",
+              "z80": ".z80\\n.org 0x100\\n  ld a, 5\\n  jr nz, lab\\nlab: ret\\n  .dw 0x1234\\n  .db 7\\n  nop\\n",
+              "6502": ".6502\\n.org 0xfff0\\n  lda #1\\n  .dc32 0x11223344\\n  .ascii \\\"ab\\\"\\n  rts\\n"}
+    for nm in (["msp430", "z80"] if tier == "quick" else ["msp430", "z80", "6502"]):
+        js.append(vp.Job("crosstype." + nm, "crosstype.cpp", {"PROGRAM": '"%s"' % XPROGS[nm]}, max_paths=20000, timeout=600, min_completed=1))
     return js
 
 def main(tier):
@@ -19,6 +25,7 @@ def main(tier):
         "Self-composition on naken_asm's real main(): it is executed twice in one process on the same source (a valid program with one solver-enumerated single-character corruption) "
         "with different reporting options (-l, -q, -dump_symbols, -dump_macros), a different output file name and the first run as history; Z3 decides on every path that both runs "
         "return the same status and write byte-identical output files.",
-        ["programs / option pairs listed in checks/C13.py; output types compared like with like (hex, bin, wdc); S-record output not compared (timestamp header)",
+        ["crosstype jobs: one program is assembled by the real two-pass flow with a SYMBOLIC number (0 .. 2^30) of empty lines before it (added to tokens.line after init() in both passes), then written by the real file_write() as bin, hex, srec and wdc; an own Intel-HEX decoder and the real srec/wdc readers bring the files back and Z3 decides byte equality with the bin file on every path",
+         "programs / option pairs listed in checks/C13.py; output types compared like with like (hex, bin, wdc); S-record output not compared (timestamp header)",
          "single-character substitutions of small programs; larger programs and other histories (naken_util interactive asm) outside the bound",
          "runs that end in exit() inside main are not compared"])
